@@ -5,3 +5,8 @@ import Hifi.Props.C03
 import Hifi.Props.C14
 import Hifi.Props.C05
 import Hifi.Props.C06
+import Hifi.Props.C04
+import Hifi.Props.C12
+import Hifi.Props.C15
+import Hifi.Props.C16
+import Hifi.Props.C20
